@@ -45,6 +45,7 @@ CONSTS = """CONSTANTS
 #   kws  KeepWhileStopped  X01-F1: TRUE once ReloadConf keeps newConf in Handler.Conf while the handler is not running
 #   swn  StartWithNewest   X01-F1 + X01-F2: TRUE once Start begins with the newest configuration handed so far
 #   od / of  OrderedDelivery / OrderedForward   X01-F3: TRUE once reloads reach the run loop / the instance in order
+#   late LateDelivery      X01-F4: FALSE once a ReloadConf goroutine of an earlier Start..Stop period cannot deliver into a later one
 # (a wrong value only shows as DRIFT of the recorded runs against layer 1, never as a verdict)
 CODE = dict(kws="TRUE", swn="FALSE", od="FALSE", of="FALSE", late="TRUE")
 FIXED = dict(kws="TRUE", swn="TRUE", od="TRUE", of="TRUE", late="FALSE")
@@ -184,6 +185,7 @@ def cause_of(mon, evs, step):
     if mon in ("ConfNewestAtStart", "ConfNewestAtQuiescence"):
         opened, rel_open, rel_idx, handed = False, None, None, 0
         racing = []          # reloads since the last quiescent point
+        info = {}            # version -> (index of its Reload, handed over while started?)
         for i, e in enumerate(pre):
             if e["e"] == "Start":
                 opened = True
@@ -194,24 +196,46 @@ def cause_of(mon, evs, step):
             elif e["e"] == "Reload":
                 rel_open, rel_idx, handed = opened, i, e["v"]
                 racing.append(e["v"])
+                info[e["v"]] = (i, opened)
         if rel_idx is None:
             return "noReload"
-        if not rel_open:
-            return "reloadWhileStopped"
         runs = [e["run"] for e in pre if e["e"] == "RunBegin"]
         r = runs[-1] if runs else 0
         told = [e["v"] for e in pre if e["e"] in ("RunBegin", "Told") and e["run"] == r]
         stale = told[-1] if told else -1
+
+        def absorbed_before_stop(v):
+            """(index of the first Stop after Reload(v), was v seen by anybody / was there a quiescent point before it)"""
+            i0 = info[v][0]
+            st = [i for i in range(i0, len(pre)) if pre[i]["e"] == "Stop"]
+            if not st:
+                return None, False
+            between = pre[i0:st[0]]
+            return st[0], any((e["e"] == "Quiet" and e["pend"] == 0) or (e["e"] in ("Told", "RunBegin") and e["v"] == v)
+                              for e in between)
+
+        # the configuration in effect is an OLDER one that was handed over during an earlier Start..Stop period, was
+        # still in flight when that Stop was called, and nevertheless turns up after a later Start
+        if stale in info and stale != handed and info[stale][1]:
+            stop_idx, absorbed = absorbed_before_stop(stale)
+            if stop_idx is not None and not absorbed:
+                starts = [i for i in range(stop_idx, len(pre)) if pre[i]["e"] == "Start"]
+                if starts and any(e["e"] in ("Told", "RunBegin") and e["v"] == stale for e in pre[starts[0]:]):
+                    return "staleReloadDeliveredAfterRestart"
+        if not rel_open:
+            # the newest configuration was handed over while the handler was stopped: dropped, unless the Run that began
+            # next carried it
+            nxt = [e for e in pre[rel_idx:] if e["e"] == "RunBegin"]
+            if not nxt or nxt[0]["v"] != handed:
+                return "reloadWhileStopped"
         if stale in racing and stale != handed:
             # an older one of several reloads that were in flight together has won
             return "reloadsOutOfOrder"
-        stops = [i for i in range(rel_idx, len(pre)) if pre[i]["e"] == "Stop"]
-        if stops:
-            # was the reload still in flight when Stop was called? (no quiescent point, not told to anybody)
-            between = pre[rel_idx:stops[0]]
-            absorbed = any((e["e"] == "Quiet" and e["pend"] == 0) or (e["e"] in ("Told", "RunBegin") and e["v"] == handed)
-                           for e in between)
-            return "reloadForgottenAtStop" if absorbed else "reloadOvertakenByStop"
+        if rel_open:
+            stop_idx, absorbed = absorbed_before_stop(handed)
+            if stop_idx is not None:
+                # was the reload still in flight when Stop was called? (no quiescent point, not told to anybody)
+                return "reloadForgottenAtStop" if absorbed else "reloadOvertakenByStop"
         if mon == "ConfNewestAtQuiescence" and handed in told:
             return "toldOutOfOrder"
         return "newestNeverTold"
@@ -275,6 +299,14 @@ def run(ctx):
             if not ctx.thorough:
                 break
         if ctx.thorough:
+            # the repaired design with the one channel for all Start..Stop periods left as it is (X01-F4)
+            r = vf.tlc(ctx, "StaticSource", cfg("SS_late.cfg", "Spec", dict(small, **dict(FIXED, late="TRUE")), "INVARIANT InvConfHandler\nVIEW View"),
+                       workers=1, timeout=900, allow_violation=True)
+            design["InvConfHandler/LateDeliveryOnly"] = bool(r.violated)
+            if r.violated:
+                ops = ops_from_error_trace(r.out)
+                if ops:
+                    cex_scripts.append(("design-counterexample:LateDelivery", ops))
             vf.mc(ctx, "StaticSource", cfg("SS_fixed.cfg", "Spec", dict(small, **FIXED),
                                            safety.replace("InvConfKnown", "InvConfKnown InvConfHandler InvConfRun")
                                            .replace("PropForwardOnlyStarted", "PropForwardOnlyStarted\nPROPERTY PropConfStart")),
@@ -347,12 +379,16 @@ def run(ctx):
                 ("directed:reload-then-stop", [{"k": "Start", "kind": ""}, {"k": "Hold", "kind": ""}, {"k": "Issue", "kind": "ready"},
                                                {"k": "Reload", "kind": ""}, {"k": "Stop", "kind": ""}, {"k": "Release", "kind": ""},
                                                {"k": "Start", "kind": ""}]),
+                ("directed:reload-stop-reload-start", [{"k": "Start", "kind": ""}, {"k": "Reload", "kind": ""}, {"k": "Stop", "kind": ""},
+                                                       {"k": "Reload", "kind": ""}, {"k": "Start", "kind": ""}]),
                 ("directed:reload-during-pause", [{"k": "Start", "kind": ""}, {"k": "Error", "kind": ""}, {"k": "Reload", "kind": ""},
                                                   {"k": "Timer", "kind": ""}, {"k": "Reload", "kind": ""}])]
     for src, ops in cex_scripts + directed:
         timer = any(o["k"] == "Timer" for o in ops)
         add(src, "settle", ops, p1=not timer or ctx.thorough)
-        for _ in range(ctx.pick(6, 20)):
+        # (the select of the late ReloadConf goroutine of X01-F4 picks one of two ready branches at random: more repetitions)
+        reps = ctx.pick(16, 40) if src == "directed:reload-stop-reload-start" else ctx.pick(6, 20)
+        for _ in range(reps):
             add(src, "burst", ops, p1=not timer or ctx.thorough)
     if ctx.thorough:
         for sc in scripts:
